@@ -1133,6 +1133,8 @@ class Expr:
             "expm1",
             "exp2",
             "sign",
+            "upcast",
+            "downcast",
         }:
             return self.operands[0].is_complex
         elif self.kind == "apply":
